@@ -1,10 +1,12 @@
 #![allow(dead_code)]
+mod c04;
 mod c11;
 mod c12;
 mod c16;
 mod eng;
 mod lark;
 mod rx;
+mod utf8rx;
 mod c17;
 mod engine;
 mod model;
@@ -38,6 +40,13 @@ struct Prop {
 
 fn props() -> Vec<Prop> {
     vec![Prop {
+        id: "C04",
+        rule: "case = random regex AST (classes, negated classes, '.', bounded/unbounded repetition, alternation, (?i), non-ASCII literals; & and ~ in Lark terminal form) in one of three concrete syntaxes; byte strings exhaustive up to length maxlen over <= 6 bytes taken from sampled members plus 'a','b','\\n',0xC3, plus members and their mutations; then 6 mask states over a synthetic multi-byte vocabulary with every token checked; distinct non-trivial = distinct (regex, syntax form) for which both accepted and rejected strings occurred",
+        quick_cases: 60,
+        thorough_cases: 600,
+        gen: c04::gen_case,
+        run: c04::run_case,
+    }, Prop {
         id: "C11",
         rule: "case = (grammar: hand-written family or random Lark grammar; vocabulary: single-byte / synthetic multi-byte; seeded history of commits, read-only queries, invalidations, clones, rollbacks, resets); at every state the mask is compared with a second computation, with the one after invalidate_bias_cache and with a fresh replay; distinct non-trivial = distinct (grammar, committed tokens) with a mask that is neither a single token nor the whole vocabulary",
         quick_cases: 60,
@@ -151,12 +160,15 @@ fn main() {
                 rep.fail(
                     "model",
                     &format!("{}:model-mismatch", p.id.to_lowercase()),
-                    format!("request `{}`: implementation `{}`, Lean model `{}`", trunc(&m.request), trunc(&m.expected), trunc(&m.got)),
+                    format!("{}request `{}`: implementation `{}`, Lean model `{}`", first_diff(&m.request, &m.expected, &m.got), trunc(&m.request), trunc(&m.expected), trunc(&m.got)),
                     json!({"case": cases[m.tag], "request": m.request, "impl": m.expected, "model": m.got}),
                 );
             }
             if mm.len() > 10 {
                 rep.count_n("fail.model", (mm.len() - 10) as u64);
+            }
+            for (_tag, got) in mb.guard_skipped.borrow().iter() {
+                rep.skip(&format!("model-undecided:{got}"));
             }
         }
         Err(e) => {
@@ -173,6 +185,23 @@ fn main() {
     } else {
         std::fs::write(&out, s).expect("write out");
     }
+}
+
+/// for batched queries (`... qs <id> a,b,c` answered by two flags per item) name the first item
+/// on which implementation and model differ
+fn first_diff(req: &str, exp: &str, got: &str) -> String {
+    let (Some(e), Some(g)) = (exp.strip_prefix("ok "), got.strip_prefix("ok ")) else { return String::new() };
+    let items: Vec<&str> = req.rsplit(' ').next().unwrap_or("").split(',').collect();
+    let (eb, gb) = (e.as_bytes(), g.as_bytes());
+    if eb.len() != gb.len() || eb.len() != 2 * items.len() {
+        return String::new();
+    }
+    for i in 0..eb.len() {
+        if eb[i] != b'?' && eb[i] != gb[i] {
+            return format!("item {} `{}` flag {} ({}): implementation {}, model {}; ", i / 2, items[i / 2], i % 2, if i % 2 == 0 { "complete" } else { "viable" }, eb[i] as char, gb[i] as char);
+        }
+    }
+    String::new()
 }
 
 fn trunc(s: &str) -> String {
